@@ -896,7 +896,7 @@ pub static C24: CheckDef = CheckDef {
     run: run_c24,
     quick_runs: 300_000,
     thorough_runs: 20_000_000,
-    rule: "case = generated multipart request: single or batch (1-3, now and then 11-12) operations, 0-6 file parts (sizes around max_file_size), a map that binds files to variable paths (several paths per file, list and object paths, per-request batch paths), part order permuted, missing and extra files, generated MultipartOptions (max_file_size, max_num_files or none); the body is delivered through the simulated reader (chunking, Pending gaps; 'reader-faults' adds truncation and I/O errors). The harness is built with async-graphql's default tempfile feature, so every file part is spooled to a real temporary file through blocking::Unblock, which is the inline stand-in of /verif/vendor/blocking: the simulator decides at that seam whether an operation proceeds, returns Pending first, transfers fewer bytes than asked ('spool-delays') or fails with StorageFull / Other / Interrupted / WriteZero ('spool-faults', only while the request is being decoded). Oracle: reference model of the multipart request spec computes either the rejection or the binding (request, variable path) -> file; bindings are observed by executing every decoded request against a schema whose Upload arguments read the handed-out upload (directly from the File or through into_async_read, drawn per case) and echo file name, content type, length, byte sum and size(). Fault-free and spool-delays: outcome must equal the model; under reader or disk errors a failure is acceptable only if a fault fired, an injected error must not be swallowed, success must equal the model. Non-trivial = at least one file was bound or a limit/missing-file rejection was expected; distinct = distinct event-order hashes.",
+    rule: "case = generated multipart request: single or batch (1-3, now and then 11-12) operations, 0-6 file parts (sizes around max_file_size), a map that binds files to variable paths (several paths per file, list and object paths, per-request batch paths), part order permuted, missing and extra files, generated MultipartOptions (max_file_size, max_num_files or none); the body is delivered through the simulated reader (chunking, Pending gaps; 'reader-faults' adds truncation and I/O errors). The harness is built with async-graphql's default tempfile feature, so every file part is spooled to a real temporary file through blocking::Unblock, which is the inline stand-in of /verif/vendor/blocking: the simulator decides at that seam whether an operation proceeds, returns Pending first, transfers fewer bytes than asked ('spool-delays') or fails with StorageFull / Other / Interrupted / WriteZero ('spool-faults', only while the request is being decoded). Oracle: reference model of the multipart request spec computes either the rejection or the binding (request, variable path) -> file; bindings are observed by executing every decoded request against a schema whose Upload arguments read the handed-out upload (directly from the File or through into_async_read, drawn per case) and echo file name, content type, length, byte sum and size(). Fault-free and spool-delays: outcome must equal the model; under reader or disk errors a failure is acceptable only if a fault fired, an injected transport error must not be swallowed, and success must equal the model (after a disk error an implementation may fail the request or retry, never bind truncated or wrong content). Non-trivial = at least one file was bound or a limit/missing-file rejection was expected; distinct = distinct event-order hashes.",
     real: &["async_graphql::http::receive_batch_body -> receive_batch_multipart (tempfile branch)", "ReaderStream (2 KiB buffer) + multer with size constraints", "tempfile::tempfile (real unnamed files)", "Request::set_upload", "Upload input type, Upload::value, UploadValue::{try_clone, size, into_async_read} + executor"],
     stub: &["request body (simulated AsyncRead)", "blocking::Unblock (inline stand-in with the simulator's fault hook instead of a thread pool)", "async runtime"],
     assumptions: &["resolvers read an upload to its end before the next resolver of the request reads (mutation root fields run serially); concurrently interleaved reads of two handles of one file are not exercised"],
@@ -1101,8 +1101,8 @@ fn run_c24(variant: usize) -> CaseOut {
             }
         }
         Ok(outs) => {
-            if st.errored || disk.errors > 0 {
-                out.viol("C24/io-error-swallowed", format!("an injected I/O error was not reported; {desc}"));
+            if st.errored {
+                out.viol("C24/io-error-swallowed", format!("an injected transport I/O error was not reported; {desc}"));
             } else if expect_reject && !(st.truncated) {
                 let (class, finding): (&str, Option<&'static str>) = if over_count && !over_size && !missing_file { ("C24/too-many-files-accepted", Some("C24-max-num-files-not-enforced")) } else if over_size { ("C24/oversized-file-accepted", None) } else { ("C24/missing-file-accepted", None) };
                 let detail = format!("accepted although the reference model rejects (over max_file_size: {over_size}, over max_num_files: {over_count}, map entry without file: {missing_file}); {desc}");
@@ -1121,7 +1121,13 @@ fn run_c24(variant: usize) -> CaseOut {
                     let exp_ol: Vec<J> = (0..nol).map(|k| binding.get(&(ri, format!("variables.o.fs.{k}"))).map(|fi| json!(expected_echo(&files[*fi]))).unwrap_or(J::Null)).collect();
                     let exp = json!({"a": exp_a, "b": exp_b, "o": exp_o, "ol": exp_ol});
                     if o.get("errors").is_some() || o["data"] != exp {
-                        out.viol("C24/wrong-binding", format!("request #{ri} executed to {o}, the reference model binds {exp}; {desc}"));
+                        // after an injected disk error the request may fail, or succeed with the right
+                        // content (an implementation may retry); it must never bind wrong or truncated data
+                        if disk.errors > 0 {
+                            out.viol("C24/io-error-swallowed", format!("an injected spool-disk error was not reported and request #{ri} executed to {o}, the reference model binds {exp}; {desc}"));
+                        } else {
+                            out.viol("C24/wrong-binding", format!("request #{ri} executed to {o}, the reference model binds {exp}; {desc}"));
+                        }
                         break;
                     }
                 }
